@@ -377,7 +377,17 @@ func genHistory(r *rand.Rand, p Profile) *History {
 				}
 				if ok {
 					op.As = []int{iface}
-					if g.coin(0.3) {
+					if len(f.Results) == 1 && isIface(f.Results[0].K.T) && g.coin(0.5) {
+						// the result's own (interface) type listed together with another interface
+						op.As = []int{f.Results[0].K.T}
+						if iface != f.Results[0].K.T {
+							if g.coin(0.5) {
+								op.As = append(op.As, iface)
+							} else {
+								op.As = []int{iface, f.Results[0].K.T}
+							}
+						}
+					} else if g.coin(0.3) {
 						i2 := tIfaceBase + g.r.Intn(4)
 						ok2 := i2 != iface
 						for _, x := range f.Results {
@@ -391,6 +401,10 @@ func genHistory(r *rand.Rand, p Profile) *History {
 					}
 				}
 			}
+		}
+		if len(op.As) > 0 && op.GroupOpt != "" && g.coin(0.25) {
+			// the same interface listed twice for a grouped result: still one member
+			op.As = append(op.As, op.As[g.r.Intn(len(op.As))])
 		}
 		for _, rs := range f.Results {
 			for k := range prodKeys(&Fn{Results: []Res{rs}}, op.As) {
